@@ -634,14 +634,19 @@ func c08ScratchRoot() string {
 		base = os.TempDir()
 	}
 	if st, err := os.Stat("/dev/shm"); err == nil && st.IsDir() && os.Getenv("VERIF_NO_SHM") == "" {
-		cand := filepath.Join("/dev/shm", fmt.Sprintf("verif-c08-%d", os.Getpid()))
-		if os.MkdirAll(cand, 0o777) == nil {
+		// MkdirTemp, not the pid: shard processes of concurrent runs may live in different
+		// pid namespaces and share /dev/shm
+		if cand, err := os.MkdirTemp("/dev/shm", "verif-c08-"); err == nil {
 			c08Root = cand
 			return c08Root
 		}
 	}
-	c08Root = filepath.Join(base, fmt.Sprintf("c08-%d", os.Getpid()))
-	os.MkdirAll(c08Root, 0o777)
+	if cand, err := os.MkdirTemp(base, "c08-"); err == nil {
+		c08Root = cand
+	} else {
+		c08Root = filepath.Join(base, fmt.Sprintf("c08-%d", os.Getpid()))
+		os.MkdirAll(c08Root, 0o777)
+	}
 	return c08Root
 }
 
